@@ -2,6 +2,7 @@
 \* produce is attributed to one of the three known causes (stale cache / stale snapshot / stale
 \* persisted window); checks/C09.py also runs it with a single switch FALSE and the matching
 \* Only*ToBlame property.  (NoFalseNegative / QueryExact are violated here by construction.)
+\* measured (all FALSE): 80 602 distinct / 353 831 generated states, depth 26; one switch FALSE: 775 / 7 528 / 1 191 distinct
 CONSTANTS
   W = 2
   Base = 1
